@@ -100,3 +100,10 @@ def roundtrip(ctx):
               detail=str(bad["cos"]), witness=bad["cos"])
     ctx.check("phi", bad["phi"] is None, clause="phi extracted == input (mod 2 pi)", detail=str(bad["phi"]), witness=bad["phi"])
     ctx.check("masses", bad["mass"] is None, clause="invariant masses extracted == input masses", detail=str(bad["mass"]), witness=bad["mass"])
+
+
+
+# A symbolic proof of the round trip for the 3-final cascade was attempted (the real build_data -> cal_angle -> find_variable
+# pipeline executes under the shim in 15 ms and yields terms of a few hundred nodes), but deciding the tf.where / abs case
+# conditions needs sign reasoning over nested radicals that z3 does not finish within the 40 s hard limit per query
+# (the run took > 20 min without a verdict).  The clause therefore stays a bounded stand-in (group above).
